@@ -374,7 +374,7 @@ func runPair(c ctor, m string, iters int, mark func(string)) bool {
 		populate(probe)
 		pm := reflect.ValueOf(probe).MethodByName(m)
 		pargs, _ := buildArgs(probe, pm.Type(), 1, c.mk)
-		if o := vh.GuardTimeout(2*time.Second, func() { pm.Call(pargs) }); o.Timeout {
+		if o := vh.GuardTimeout(hangLimit, func() { pm.Call(pargs) }); o.Timeout {
 			return false
 		}
 	}
@@ -401,7 +401,7 @@ func runPair(c ctor, m string, iters int, mark func(string)) bool {
 	go func() { wg.Wait(); close(fin) }()
 	select {
 	case <-fin:
-	case <-time.After(20 * time.Second):
+	case <-time.After(hangLimit):
 		markDead(c.name) // an operation never returned: skip the rest of this type
 		mark("##PAIR-HUNG " + c.name + "." + m)
 		return false
@@ -435,7 +435,7 @@ func runMutatorPair(c ctor, iters int, mark func(string)) {
 	go func() { wg.Wait(); close(fin) }()
 	select {
 	case <-fin:
-	case <-time.After(20 * time.Second):
+	case <-time.After(hangLimit):
 		markDead(c.name)
 		mark("##PAIR-HUNG " + c.name + ".<mutators>")
 		return
